@@ -80,9 +80,9 @@ func (c06) Generate(r *core.Rng, run int, tier string) *core.History {
 		case c < 9:
 			ev("copy", mn, mn2, 0, 0)
 		case c < 10:
-			ev("nest-arr", "h", an, 0, 0, an2)
+			ev(core.Pick(r, []string{"nest-arr", "nest-arr", "nest-arr-func"}), "h", an, 0, 0, an2)
 		case c < 11:
-			ev("nest-map", "h", an, 0, 0, mn)
+			ev(core.Pick(r, []string{"nest-map", "nest-map", "nest-map-func"}), "h", an, 0, 0, mn)
 		case c < 14:
 			ev("idx-assign", an, "", idx, 0)
 		case c < 16:
@@ -224,6 +224,19 @@ func (c06) Execute(h *core.History) *core.Outcome {
 			}
 			m["h"] = &val{kind: "arr", arr: []*val{x.clone(), y.clone()}}
 			src = "h = [" + e.Key + ", " + e.Args[0] + "]"
+		case "nest-arr-func", "nest-map-func":
+			// the literal is built inside a function from OUTER variables: it must hold their values, not references
+			x, y := m[e.Key], m[e.Args[0]]
+			if x == nil || y == nil {
+				continue
+			}
+			if e.Ev == "nest-arr-func" {
+				m["h"] = &val{kind: "arr", arr: []*val{x.clone(), y.clone(), vint(int64(len(x.arr)))}}
+				src = "h = (() => [" + e.Key + ", " + e.Args[0] + ", len(" + e.Key + ")])()"
+			} else {
+				m["h"] = &val{kind: "map", m: map[string]*val{"p": x.clone(), "q": y.clone()}}
+				src = "h = (() => { {\"p\": " + e.Key + ", \"q\": " + e.Args[0] + "} })()"
+			}
 		case "nest-map":
 			x, y := m[e.Key], m[e.Args[0]]
 			if x == nil || y == nil {
